@@ -442,19 +442,10 @@ def call_route(route, abbr, conf, glob):
     return emmet.stringify_stylesheet(resolved, c2)
 
 
-def route_fresh(route, delivery, abbr, cfg):
-    """one route on a completely fresh configuration (no cache shared with any other call)"""
-    conf, glob = deliver(cfg, delivery)
-    try:
-        return ('ok', call_route(route, abbr, conf, glob))
-    except Exception as e:
-        return su.classify_exc(e, len(abbr))
-
-
 class RouteRunner(su.ImplRunner):
     """su.ImplRunner for any (route, delivery): one `cache` dict per (configuration, delivery) so the snippet table is
     converted once; the units that resolve_numeric_value writes into cached snippet tokens are restored after every call
-    (same reasoning as in ImplRunner).  Failures are always confirmed by `route_fresh`."""
+    (same reasoning as in ImplRunner).  Failures are always settled in a pristine interpreter (`settle`)."""
 
     def run(self, route, delivery, abbr, cfg):
         k = (cfg.key(), delivery)
@@ -486,18 +477,149 @@ def _route_chunk(chunk):
     return [rr.run(route, delivery, abbr, cfg) for route, delivery, cfg, abbr in chunk]
 
 
-def route_many(jobs):
-    """RouteRunner over (route, delivery, cfg, abbr) jobs, in parallel processes (order preserved)"""
+def run_jobs(jobs):
+    """RouteRunner over (route, delivery, cfg, abbr) jobs, in parallel processes (order preserved).  Returns the results and,
+    per job, the index of the first job that ran before it in the same worker process (its possible history)."""
     jobs = list(jobs)
     if len(jobs) < 2000:
-        return _route_chunk(jobs)
+        return _route_chunk(jobs), [0] * len(jobs)
     import multiprocessing
     procs = common.NPROC
     size = max(400, (len(jobs) + procs * 2 - 1) // (procs * 2))
-    chunks = [jobs[i:i + size] for i in range(0, len(jobs), size)]
+    bounds = list(range(0, len(jobs), size))
+    chunks = [jobs[i:i + size] for i in bounds]
     with multiprocessing.get_context('fork').Pool(procs) as pool:
         outs = pool.map(_route_chunk, chunks)
-    return [x for o in outs for x in o]
+    return [x for o in outs for x in o], [b for b, o in zip(bounds, outs) for _ in o]
+
+
+# ---------------------------------------------------------------- pristine interpreters (failures are settled there)
+def seq_server():
+    """Runs in an interpreter of its own (started by Pristine).  It imports the library but never calls it; every request
+    -- a JSON list of [route, delivery, config, abbreviation] calls -- is run in a forked child with one RouteRunner, so a
+    request sees exactly the state its own earlier calls left behind.  Answer: the outcome of the LAST call."""
+    import sys
+    import emmet  # noqa: F401  (import only)
+    for line in sys.stdin:
+        rd, wr = os.pipe()
+        pid = os.fork()
+        if pid == 0:
+            os.close(rd)
+            try:
+                rr = RouteRunner()
+                out = None
+                for route, delivery, cj, abbr in json.loads(line):
+                    out = rr.run(route, delivery, abbr, Cfg.from_json(cj))
+                data = json.dumps(list(out))
+            except BaseException as e:
+                data = json.dumps(['harness-error', repr(e)[:300]])
+            os.write(wr, data.encode())
+            os._exit(0)
+        os.close(wr)
+        buf = b''
+        while True:
+            part = os.read(rd, 65536)
+            if not part:
+                break
+            buf += part
+        os.close(rd)
+        os.waitpid(pid, 0)
+        sys.stdout.write(buf.decode() + '\n')
+        sys.stdout.flush()
+
+
+class Pristine:
+    """client of seq_server (started on first use: a clean tree never starts it)"""
+    BOOT = 'import sys; sys.setrecursionlimit(10000); sys.path.insert(0, %r); from props import c05; c05.seq_server()'
+
+    def __init__(self):
+        self.p = None
+
+    def ask(self, seq):
+        import subprocess
+        if self.p is None:
+            env = dict(os.environ, PYTHONPATH=common.REPO, PYTHONHASHSEED='0', PYTHONDONTWRITEBYTECODE='1')
+            self.p = subprocess.Popen([common.PY, '-c', self.BOOT % common.HERE], stdin=subprocess.PIPE, stdout=subprocess.PIPE,
+                                      text=True, env=env)
+        self.p.stdin.write(json.dumps([[route, delivery, cfg.to_json(), abbr] for route, delivery, cfg, abbr in seq]) + '\n')
+        self.p.stdin.flush()
+        line = self.p.stdout.readline()
+        if not line:
+            return ('harness-error', 'pristine server died')
+        return tuple(json.loads(line))
+
+    def close(self):
+        if self.p is not None:
+            self.p.stdin.close()
+            self.p.wait()
+            self.p = None
+
+
+MAX_REPORTS = 12          # failing inputs settled and reported per run (the smallest ones)
+MAX_HISTORY_SEARCHES = 2  # failures that need the calls made before them: searched for the shortest such history
+
+
+def settle(ctx, fails):
+    """Turn the failures seen in the worker processes into replayable reports.  Each is re-run ALONE in a pristine
+    interpreter; when it fails only after the calls made before it in its worker, that history is cut down (halving) to a
+    short prelude which the replay file carries.  The statement is about one call; a prelude is part of the concrete input
+    sequence on which that call's output breaks it."""
+    if not fails:
+        return
+    fails.sort(key=lambda f: len(f['jobs'][f['idx']][3]) + len(json.dumps(f['jobs'][f['idx']][2].to_json())))
+    pr = Pristine()
+    reported = searches = 0
+    loose = []
+    try:
+        for f in fails:
+            if reported >= MAX_REPORTS:
+                break
+            job = f['jobs'][f['idx']]
+            route, delivery, cfg, s = job
+            exp = f['exp']
+            r = pr.ask([job])
+            bad = c05_oracle(s, cfg, exp, r)
+            prelude = []
+            if not bad:
+                if searches >= MAX_HISTORY_SEARCHES:
+                    continue
+                searches += 1
+                cur = f['jobs'][f['start']:f['idx']]
+                r = pr.ask(cur + [job])
+                bad = c05_oracle(s, cfg, exp, r)
+                if not bad:
+                    loose.append((job, f['r']))
+                    continue
+                while len(cur) > 1:
+                    h = len(cur) // 2
+                    for part in (cur[h:], cur[:h]):
+                        rp = pr.ask(part + [job])
+                        b2 = c05_oracle(s, cfg, exp, rp)
+                        if b2:
+                            cur, r, bad = part, rp, b2
+                            break
+                    else:
+                        break
+                prelude = cur
+            reported += 1
+            conf, glob = deliver(cfg, delivery)
+            plain = (route, delivery) == ('expand-dict', 'call')
+            key = ('c05:%s:%s' % (cfg.key(), s)) if plain else 'c05:route:%s:%s:%s:%s' % (route, delivery, cfg.key(), s)
+            what = ('stylesheet expand(%r) under %s' % (s, cfg.to_json())) if plain else (
+                'stylesheet abbreviation %r via route %s, options from %s (config %r, global %r)' % (s, route, delivery, conf, glob))
+            rep = {'input': s, 'config': cfg.to_json(), 'expected': exp, 'impl': repr(r)[:300], 'why': bad}
+            if not plain:
+                rep['route'], rep['delivery'] = route, delivery
+            if prelude:
+                what += ' after %d earlier call(s) in the same process' % len(prelude)
+                rep['prelude'] = [{'route': a, 'delivery': b, 'config': c.to_json(), 'input': d} for a, b, c, d in prelude]
+            ctx.property_failure(key, what + ': ' + bad, rep)
+    finally:
+        pr.close()
+    if reported == 0:
+        for (route, delivery, cfg, s), r in loose[:3] or [(fails[0]['jobs'][fails[0]['idx']], fails[0]['r'])]:
+            ctx.broken.append({'kind': 'failure-not-reproduced-in-a-pristine-process', 'file': 'harness/props/c05.py', 'input': s,
+                               'config': cfg.to_json(), 'route': route, 'delivery': delivery, 'impl': repr(r)[:300]})
 
 
 def route_jobs(ctx, cases):
@@ -589,10 +711,12 @@ def run(ctx):
         ctx.broken.append({'kind': 'generator-table', 'file': 'harness/props/c05.py', 'detail': repr(stale[:5])})
     cases = gen(ctx)
     pairs = [(c, s) for c, s, _, _ in cases]
-    impl = su.impl_expand_many(pairs)
+    main_jobs = [('expand-dict', 'call', c, s) for c, s in pairs]
+    impl, main_starts = run_jobs(main_jobs)
     runner = su.ImplRunner()
+    fails = []
     nfail = 0
-    for (cfg, s, exp, tag), r in zip(cases, impl):
+    for j, ((cfg, s, exp, tag), r) in enumerate(zip(cases, impl)):
         ctx.count_eval()
         ctx.nontrivial((cfg.key(), s))
         ctx.cover('c05:' + tag)
@@ -607,41 +731,27 @@ def run(ctx):
             ctx.cover('c05:dash-separator')
         if re.search(r'[a-z%]-\d', s):
             ctx.cover('c05:dash-sign')
-        bad = c05_oracle(s, cfg, exp, r)
-        if bad:
-            # confirm on a completely fresh configuration (no shared cache)
-            r2 = su.impl_expand(s, cfg)
-            bad = c05_oracle(s, cfg, exp, r2)
-            if bad:
-                nfail += 1
-                ctx.property_failure('c05:%s:%s' % (cfg.key(), s), 'stylesheet expand(%r) under %s: %s' % (s, cfg.to_json(), bad),
-                                     {'input': s, 'config': cfg.to_json(), 'expected': exp, 'impl': repr(r2)[:300], 'why': bad})
+        if c05_oracle(s, cfg, exp, r):
+            nfail += 1
+            fails.append({'jobs': main_jobs, 'start': main_starts[j], 'idx': j, 'exp': exp, 'r': r})
     # the other documented call routes and the other ways the options can arrive (oracle only: the model is tied to the
     # same (configuration, abbreviation) pairs in the main stream; a route has no counterpart in the model)
     jobs = route_jobs(ctx, cases)
-    routed = route_many((route, delivery, cases[i][0], cases[i][1]) for i, route, delivery in jobs)
+    rjobs = [(route, delivery, cases[i][0], cases[i][1]) for i, route, delivery in jobs]
+    routed, rstarts = run_jobs(rjobs)
     nroute = 0
-    for (i, route, delivery), r in zip(jobs, routed):
+    for j, ((i, route, delivery), r) in enumerate(zip(jobs, routed)):
         cfg, s, exp, tag = cases[i]
         ctx.count_eval()
         ctx.cover('c05:route:' + route)
         ctx.cover('c05:options-from:' + delivery)
         if '!' in s and route.startswith('two-step'):
             ctx.cover('c05:route:two-step-with-important')
-        bad = c05_oracle(s, cfg, exp, r)
-        if bad:
-            r2 = route_fresh(route, delivery, s, cfg)
-            bad = c05_oracle(s, cfg, exp, r2)
-            if bad:
-                nroute += 1
-                if nroute > 200:
-                    continue
-                conf, glob = deliver(cfg, delivery)
-                ctx.property_failure('c05:route:%s:%s:%s:%s' % (route, delivery, cfg.key(), s),
-                                     'stylesheet abbreviation %r via route %s, options from %s (config %r, global %r): %s'
-                                     % (s, route, delivery, conf, glob, bad),
-                                     {'input': s, 'config': cfg.to_json(), 'route': route, 'delivery': delivery, 'expected': exp,
-                                      'impl': repr(r2)[:300], 'why': bad})
+        if c05_oracle(s, cfg, exp, r):
+            nroute += 1
+            fails.append({'jobs': rjobs, 'start': rstarts[j], 'idx': j, 'exp': exp, 'r': r})
+    settle(ctx, fails)
+    ctx.cov['correspondence']['c05_main_vs_statement'] = {'cases': len(cases), 'disagreements': nfail}
     ctx.cov['correspondence']['c05_routes_vs_statement'] = {'cases': len(jobs), 'disagreements': nroute}
     for (cfg, s, exp, tag), r in list(zip(cases, impl))[-6:]:
         ctx.sample({'input': s, 'config': cfg.to_json(), 'expected': exp, 'impl': repr(r)[:160]})
@@ -678,9 +788,16 @@ def replay(ctx, obj):
     if route not in ROUTES or delivery not in DELIVERIES:
         print('replay names an unknown route/delivery: %s' % rp)
         return 1
-    r = su.impl_expand(s, cfg) if (route, delivery) == ('expand-dict', 'call') else route_fresh(route, delivery, s, cfg)
+    rr = RouteRunner()
+    prelude = rp.get('prelude') or []
+    for pj in prelude:
+        rr.run(pj.get('route', 'expand-dict'), pj.get('delivery', 'call'), pj['input'], Cfg.from_json(pj.get('config', {})))
+    r = rr.run(route, delivery, s, cfg)
     bad = c05_oracle(s, cfg, rp['expected'], r)
     conf, glob = deliver(cfg, delivery)
+    if prelude:
+        print('after %d earlier call(s) in this process: %s' % (len(prelude), '; '.join(
+            '%r via %s/%s under %s' % (pj['input'], pj.get('route', 'expand-dict'), pj.get('delivery', 'call'), pj.get('config')) for pj in prelude[:5])))
     print('css %r via route %s, options from %s (call config %r, global config %r) -> %r ; expected %r : %s'
           % (s, route, delivery, conf, glob, r, rp['expected'], bad or 'property holds'))
     return 1 if bad else 0
